@@ -42,6 +42,14 @@ prop('C04', 'Hypothesis meshes x elements (real and synthetic count-only) vs DOF
      'trusts numpy/scipy and the facet/edge tables judged by C11; curved cells are excluded from the DOF-location part',
      'DESIGN.md section 6 C04')
 
+prop('C05', 'Hypothesis sparse systems vs dense NumPy algebra; operand checksums',
+     'Generated sparse systems (empty constrained rows, missing diagonals, explicit zeros, unsymmetric patterns, '
+     'sorted/unsorted CSR, CSC) with every way of giving the split (D, I, shuffled I, DofsView, dict of views), x, '
+     'overwrite, diag and penalty; condense/enforce/penalize/solve/mpc results are judged against dense linear '
+     'algebra, constrained rows entry by entry, operands by checksums before/after.',
+     'kept block diagonally dominant by construction; enforce/penalize on CSR only; dense numpy.linalg is trusted',
+     'DESIGN.md section 6 C05')
+
 NOT_YET = 'check under construction in this round; not claimed until it is registered (see DESIGN.md section 9)'
 
 
